@@ -1687,6 +1687,29 @@ def popen_ops(case, rp):
                     return dict(confirmed=True, detail='; '.join(probs[:3]),
                                 input=dict(exit_codes=dict(zip(('t1', 't2'), codes)), operations=order, cancel_request=named),
                                 found_by='bounded native operation sequences (%d tried)' % n)
+    # intake: a task is entered in the registry before its process can exist
+    for fail in (False, True):
+        n += 1
+        p = mk_popen(rp)
+        seen = []
+        def handle(task, _p=p, _fail=fail):
+            seen.append((task['uid'], task['uid'] in _p._tasks))
+            if _fail: raise RuntimeError('launch failed')
+            task['proc'] = _FakeProc(None)
+        p._handle_task = handle
+        try:
+            p.work([{'uid': 't1', 'description': {}}, {'uid': 't2', 'description': {}}])
+        except Exception as e:
+            probs.append('work raised %r' % e)
+        late = [u for u, ok in seen if not ok]
+        if late:
+            probs.append('%s handed to the launcher before being entered in the registry of running tasks: a cancel request or the watcher '
+                         'meeting the process in that window finds no owner' % late)
+        if fail and (released(p, 't1') != 1 or released(p, 't2') != 1):
+            probs.append('launch failure: t1 released %d times, t2 %d times' % (released(p, 't1'), released(p, 't2')))
+        if probs:
+            return dict(confirmed=True, detail='; '.join(probs[:3]), input=dict(operations=['work([t1, t2])'], launch_fails=fail),
+                        found_by='bounded native operation sequences (%d tried)' % n)
     # a cancel in progress: the canceller has taken t1 out of the registry (it owns
     # it now) but has not dropped the process handle yet, and the process exited;
     # the watcher must leave that task alone
